@@ -62,16 +62,20 @@ def model_ops(ops):
     return out
 
 
+NUMPY_SCALARS = [False]          # set per case: numeric operands are handed over as NumPy scalars (np.float64) instead of floats
+
+
 def apply_chain(e, ops, w):
+    num = (lambda v: np.array([v])[0]) if NUMPY_SCALARS[0] else (lambda v: v)
     for o in ops:
         if o[0] == 'neg':
             e = -e
         elif o[0] == 'scale':
-            k = float(Fraction(o[1]))
+            k = num(float(Fraction(o[1])))
             e = (k * e) if o[2] == 'L' else (e * k)
         else:
             c = float(Fraction(o[1])); d = float(Fraction(o[2]))
-            t = c if d == 0 else (d * w + c)
+            t = num(c) if d == 0 else (d * w + c)
             if o[0] == 'add':
                 e = e + t
             elif o[0] == 'radd':
@@ -177,6 +181,7 @@ def run(ctx):
         if flip:
             rhs = [rhs[0], '1']                       # the other side must be an rsome expression for its operator to run
         case = {"front": front, "atom": name, "ops": ops, "cmp": cmp_, "rhs": rhs, "seed": seed, "flipped_spelling": flip}
+        NUMPY_SCALARS[0] = bool(r.random() < 0.25); case['numpy_scalars'] = NUMPY_SCALARS[0]
         try:
             expr, fin = real_chain(front, name, ops, cmp_, rhs, seed, flip)
         except Exception as ex:
@@ -191,6 +196,7 @@ def run(ctx):
         compare_chain(ctx, case, expr, fin, out)
         ctx.sample(case, limit=3)
     run_pw(ctx)
+    NUMPY_SCALARS[0] = False
     run_products(ctx)
     for _ in range(ctx.n(25, 400)):
         search_pinned(ctx, r)
@@ -245,7 +251,8 @@ def run_pw(ctx):
         zero = r.random() < 0.08
         if zero:
             ops = ops[:2] + [['scale', '0', 'L'], ['add', '5', '0']]
-        case = {"front": front, "minof": ismin, "pieces": pcs, "ops": ops}
+        NUMPY_SCALARS[0] = bool(r.random() < 0.3)
+        case = {"front": front, "minof": ismin, "pieces": pcs, "ops": ops, "numpy_scalars": NUMPY_SCALARS[0]}
         m = ro.Model() if front == 'ro' else dro.Model(2)
         w = m.dvar()
         if front != 'ro':
@@ -349,6 +356,21 @@ def run_products(ctx):
     t('dro adaptive.reshape*rand', lambda: (lambda m, x, z, y: y.reshape((2, 1)) * z[0])(*mk_dro()))
     t('dro adaptive.T*rand', lambda: (lambda m, x, z, y: y.T * z)(*mk_dro()))
     t('dro adaptive[::-1]*rand', lambda: (lambda m, x, z, y: y[::-1] * z)(*mk_dro()))
+    def mk_dro_set():
+        m = dro.Model(2); x = m.dvar(2); z = m.rvar(2); y = m.dvar(2); y.adapt(z)
+        fs = m.ambiguity(); fs.suppset(z >= -1, z <= 1); m.minsup(rso.E(x.sum()), fs)
+        return m, x, z, y
+    # convex functions of affinely adaptive decisions: refused when built or, at the latest, when the model is formulated
+    for nm_, mkc in (('abs(adaptive) <= static', lambda m, x, z, y: abs(y) <= x),
+                     ('exp(adaptive) <= static', lambda m, x, z, y: rso.exp(y[0]) <= x[0]),
+                     ('abs(static) <= adaptive', lambda m, x, z, y: abs(x - 1) <= y),
+                     ('log(adaptive + 3) >= static', lambda m, x, z, y: rso.log(y[0] + 3) >= x[0]),
+                     ('pexp(static, adaptive + 3) <= static', lambda m, x, z, y: rso.pexp(x[0], y[0] + 3) <= x[1])):
+        def run_(mkc=mkc):
+            m, x, z, y = mk_dro_set()
+            m.st(mkc(m, x, z, y), y >= z, x >= -5, x <= 5)
+            m.do_math()
+        t('dro ' + nm_, run_)
     t('dro norm(adaptive)', lambda: (lambda m, x, z, y: rso.norm(y))(*mk_dro()))
     t('dro sumsqr(static+adaptive)', lambda: (lambda m, x, z, y: rso.sumsqr(x + y))(*mk_dro()))
     t('dro square(2*static+adaptive)', lambda: (lambda m, x, z, y: rso.square(2 * x + y))(*mk_dro()))
@@ -362,8 +384,12 @@ def run_products(ctx):
             ctx.hit('illegal-product-accepted', {"what": name}, {"illegal": name})
         except Exception as ex:
             ctx.count('illegal:raised:' + type(ex).__name__)
+    def legal_static_atoms_next_to_adaptive():
+        m, x, z, y = mk_dro_set()
+        m.st(abs(x - 1) <= 2, rso.exp(x[0]) <= 5, rso.norm(x) <= 4, y >= z, x >= -3)
+        m.do_math()
     # legal controls: these must NOT raise
-    for name, f in [('dro static-entry-of-partially-adaptive*rand', lambda: (lambda m, x, z, y: y[1] * z[0])(*mk_dro_partial())),
+    for name, f in [('dro convex atoms of static decisions in a model with an adaptive decision', legal_static_atoms_next_to_adaptive),('dro static-entry-of-partially-adaptive*rand', lambda: (lambda m, x, z, y: y[1] * z[0])(*mk_dro_partial())),
                     ('dro static*rand', lambda: (lambda m, x, z, y: x * z)(*mk_dro()))]:
         ctx.programs += 1; ctx.evaluations += 1
         try:
